@@ -113,20 +113,7 @@ S4 == << StructN(<<MA(ByteN), MB(BytesN(ThisA))>>),
          StructN(<<MA(ByteN), MB(PrefixedN(ByteN, RawCopyN(GreedyBytesN))), MC([k |-> "Tell"])>>),
          StructN(<<MA(ByteN), MB(PaddedN(CInt(2), StopIfN(CBool(TRUE))))>>) >>
 
-\* recursive formats (a list, a tree, nested envelopes) and the list adapters
-LazyBoundN(ref) == [k |-> "LazyBound", ref |-> ref]
-RecN(name, x) == [k |-> "Rec", name |-> name, sub |-> x]
-IndexingN(x, cnt, idx) == [k |-> "Indexing", sub |-> x, count |-> VInt(cnt), index |-> VInt(idx), empty |-> VInt(0)]
-SlicingN(x, cnt, lo, hi, st) == [k |-> "Slicing", sub |-> x, count |-> VInt(cnt), start |-> VInt(lo), stop |-> VInt(hi), step |-> st, empty |-> VInt(0)]
-S5 == << RecN("d", StructN(<<MA(ByteN), MB(IfN(ThisA, LazyBoundN("d")))>>)),
-         RecN("t", StructN(<<MA(ByteN), MB(ArrayN(ThisA, LazyBoundN("t")))>>)),
-         RecN("p", PrefixedN(ByteN, StructN(<<MA(ByteN), MB(IfN(EqE(ThisA, CInt(1)), LazyBoundN("p"))), MC(GreedyBytesN)>>))),
-         StructN(<<MA(ByteN), MB(RecN("d", StructN(<<MA(ByteN), MB(IfN(ThisA, LazyBoundN("d")))>>))), MC(ByteN)>>),
-         IndexingN(ArrayN(CInt(2), ByteN), 2, 1), IndexingN(ArrayN(CInt(2), Al("Int16ub")), 2, 0), IndexingN(GreedyRangeN(ByteN), 3, 1),
-         SlicingN(ArrayN(CInt(3), ByteN), 3, 1, 2, 1), SlicingN(ArrayN(CInt(4), ByteN), 4, 0, 4, 2),
-         StructN(<<MA(ByteN), MB(IndexingN(ArrayN(CInt(2), ByteN), 2, 1)), MC(ByteN)>>) >>
-
-ProgsAll == S1 \o S4 \o S2 \o S3 \o S5
+ProgsAll == S1 \o S4 \o S2 \o S3
 \* the part of the universe a check is about
 FocusSet == IF "MC_FOCUS" \in DOMAIN IOEnv THEN IOEnv.MC_FOCUS ELSE "all"
 FocusKinds ==
